@@ -31,7 +31,7 @@ RULE = (
 P_SUP = {"bessel": True, "measures": ["dx", "dx", "ds", "dS", "dP"], "ids": "few", "max_integrals": 4, "depth": 2, "maxdeg": 3, "max_qdeg": 6, "p_scheme": 0.25, "p_vertex": 0.1}
 ITYPES = ("cell", "exterior_facet", "interior_facet", "vertex")
 
-WILD = ["cell_avg", "facet_avg", "bessel", "raw-geometry", "prism-dS", "vertex-dg", "sumfact-nontp", "diag-different-spaces", "negative-id",
+WILD = ["two-qelements", "two-qelements", "cell_avg", "facet_avg", "bessel", "raw-geometry", "prism-dS", "vertex-dg", "sumfact-nontp", "diag-different-spaces", "negative-id",
         "vertex-scheme-prism", "two-arguments-expression", "hessian-nonaffine", "ridge"]
 
 
@@ -39,7 +39,32 @@ WILD = ["cell_avg", "facet_avg", "bessel", "raw-geometry", "prism-dS", "vertex-d
 def wild_cases(draw):
     kind = draw(st.sampled_from(WILD))
     options = {}
-    if kind == "prism-dS":
+    if kind == "two-qelements":
+        # one integral containing two quadrature elements: FFCx defines the rule by "the" quadrature element, so the two must agree
+        cell = draw(st.sampled_from(["interval", "triangle", "quadrilateral", "tetrahedron"]))
+        tdim = specs.TDIM[cell]
+        ct = refeval.CT[cell]
+        q = draw(st.integers(1, 3))
+        pts, wts = basix.make_quadrature(ct, q)
+        pts, wts = np.asarray(pts), np.asarray(wts)
+        variant = draw(st.sampled_from(["consistent", "points-differ", "weights-differ", "both-differ", "size-differs"]))
+        p2, w2 = pts.copy(), wts.copy()
+        if variant in ("points-differ", "both-differ"):
+            p2 = np.round(0.9 * pts + 0.1 * pts.mean(axis=0), 12)  # same count, pulled towards the centroid
+        if variant in ("weights-differ", "both-differ"):
+            w2 = wts[::-1].copy() if not np.allclose(wts, wts[::-1]) else wts * np.linspace(0.9, 1.1, len(wts))
+        if variant == "size-differs":
+            p2, w2 = (np.asarray(x) for x in basix.make_quadrature(ct, q + 2))
+        els = [["cquad", pts.tolist(), wts.tolist(), []], ["cquad", p2.tolist(), w2.tolist(), []], ["el", "P", 1, {}]]
+        arity = draw(st.sampled_from([0, 1]))
+        e = ["mul", ["f", 0], ["f", 1]]
+        if arity == 1:
+            e = ["mul", e, ["v"]]
+        spec = {"kind": "form", "cell": cell, "gdim": tdim, "cdeg": 1, "elements": els, "args": [2] * arity, "coefs": [0, 1], "consts": [],
+                "integrals": [{"m": "dx", "id": None, "md": {}, "e": e}], "data_seed": draw(st.integers(0, 2**31 - 1)),
+                "_tags": ["quadrature"], "_features": ["two-qelements:" + variant]}
+        kind = "two-qelements:" + variant
+    elif kind == "prism-dS":
         spec = draw(strategies.form_specs({"cells": ["prism"], "measures": ["dx"], "max_integrals": 1, "depth": 1, "maxdeg": 1}))
         spec["integrals"][0]["m"] = "dS"
         na = len(spec["args"])
@@ -123,6 +148,12 @@ def evaluate_supported(spec, wd, options=None, wild=None):
     except kernels.CompileError as e:
         return Outcome("violation", case_id=h, classes=classes, key=f"{PROP}:cc:{h}", bucket=f"{PROP}:compiler-error:{_cc_signature(e.stderr)}",
                        what=f"FFCx accepted the input but the generated C does not compile: {_cc_first_error(e.stderr)}", replay=replay, sample=sample)
+    if wild and wild.startswith("two-qelements:") and not wild.endswith(":consistent"):
+        # the construct has no meaning FFCx could implement (its own analysis asserts the quadrature elements of an integral agree):
+        # building it is "silently computing something else"
+        return Outcome("violation", case_id=h, classes=classes, key=f"{PROP}:accepted-ill-defined:{h}", bucket=f"{PROP}:accepted-ill-defined:{wild}",
+                       what=f"FFCx accepted and compiled an input it cannot give a meaning to ({wild}): one integral with two quadrature elements whose rules "
+                            "differ; the kernel uses one rule for both", replay=replay, sample=sample)
     if kernels.uses_posix_bessel(mod.source):
         classes = classes + ["posix-bessel:compiled-with-_DEFAULT_SOURCE(known finding excluded)"]
     if is_expr or (options and options.get("part") == "diagonal"):
@@ -211,7 +242,23 @@ def collision_pairs(rules):
     return pairs, npairs
 
 
-def pair_form_spec(cell, a, b):
+def same_size_pairs(rules, per_size):
+    """Pairs of distinct rules of one cell with equally many points (up to `per_size` pairs per (cell, size))."""
+    out = []
+    for cell, full in rules.items():
+        bysize = collections.defaultdict(list)
+        for digest, info in sorted(full.items(), key=lambda kv: (kv[1][3], kv[1][0], kv[1][1], kv[1][2])):
+            bysize[info[3]].append(info)
+        for n, infos in sorted(bysize.items()):
+            if n > 64:
+                continue
+            # prefer pairs of different schemes / polysets (same scheme and size usually means consecutive degrees)
+            pairs = sorted(itertools.combinations(infos, 2), key=lambda ab: (ab[0][0] == ab[1][0], ab[0][2] == ab[1][2]))
+            out += [(cell, n, a, b) for a, b in pairs[:per_size]]
+    return out
+
+
+def pair_form_spec(cell, a, b, same_integrand=False):
     """A linear form with two integrals using rules a and b; macro polysets need an iso (macro) test element."""
     ints = []
     macro = a[2] == "macro" or b[2] == "macro"
@@ -219,7 +266,7 @@ def pair_form_spec(cell, a, b):
         md = {"quadrature_degree": int(q)}
         if scheme != "default":
             md["quadrature_rule"] = scheme
-        e = ["inner", ["f", 0] if k == 0 else ["mul", ["f", 0], ["f", 0]], ["v"]]
+        e = ["inner", ["f", 0] if (k == 0 or same_integrand) else ["mul", ["f", 0], ["f", 0]], ["v"]]
         ints.append({"m": "dx", "id": None, "md": md, "e": e})
     el = ["el", "iso", 1, {}] if macro else ["el", "P", 1, {}]
     return {"kind": "form", "cell": cell, "gdim": specs.TDIM[cell], "cdeg": 1, "elements": [el, ["el", "P", 1, {}]], "args": [0], "coefs": [1], "consts": [],
@@ -228,7 +275,7 @@ def pair_form_spec(cell, a, b):
 
 def check_pair(args):
     cell, rid, a, b, wd = args
-    spec = pair_form_spec(cell, a, b)
+    spec = pair_form_spec(cell, a, b, same_integrand=(wd == "same-integrand"))
     with scratch("vf-c19p-") as d:
         o = evaluate_supported(spec, d)
     return (cell, rid, a[:4], b[:4], o.status, o.what[:300] if o.what else "")
@@ -287,6 +334,16 @@ def run(tier: str) -> int:
         if status == "violation":
             run_.fail(f"{PROP}:rule-id-collision:{cell}:{a}:{b}", f"rules {a} and {b} on {cell} share the id {rid}: {what}",
                       {"spec": pair_form_spec(cell, a + (rid,), b + (rid,))}, bucket=f"{PROP}:rule-id-collision")
+    # (3b) rules of equal size in one kernel (per-loop temporaries must not be keyed by the number of points)
+    ss = same_size_pairs(rules, per_size=1 if tier == "quick" else 4)
+    run_.extra["same_size_rule_pairs_compiled"] = len(ss)
+    for cell, n, a, b, status, what in pmap(check_pair, [(c, n, a, b, "same-integrand") for c, n, a, b in ss]):
+        run_.evaluations += 1
+        run_.nontrivial.add(f"samesize:{cell}:{a[:4]}:{b[:4]}")
+        run_.count("same-size-pair:" + status)
+        if status == "violation":
+            run_.fail(f"{PROP}:same-size-rules:{cell}:{a[:4]}:{b[:4]}", f"rules {a[:4]} and {b[:4]} on {cell} (both {n} points) in one kernel: {what}",
+                      {"spec": pair_form_spec(cell, a, b, same_integrand=True)}, bucket=f"{PROP}:same-size-rules")
     probe_bessel_strict_c17(run_)
     n = 8 if tier == "quick" else 180
     for part in run_shards(shard, 16, n=n, seed=verif_seed()):
